@@ -1,0 +1,14 @@
+//go:build !verif
+// +build !verif
+
+package restful
+
+import "sync"
+
+// See verif_hooks_on.go ; without the build tag "verif" the hooks are empty and inlined away.
+
+func simYield(site string) {}
+
+func simLock(site string, mu *sync.RWMutex, write bool) {}
+
+func simSend(site string, full func() bool) {}
